@@ -205,7 +205,7 @@ def load_tree(tree):
     return out
 
 
-def run_observation(scn: dict, with_dask: bool, *, simulate: bool = True, forced=None, builder: str = "python", yaml_rng=None, keep_objects: bool = False) -> dict:
+def run_observation(scn: dict, with_dask: bool, *, simulate: bool = True, forced=None, builder: str = "python", yaml_rng=None, keep_objects: bool = False, warmup: bool = False) -> dict:
     """Run the scenario's observation; returns a record with result/exception/history/sim stats."""
     import pyxel
 
@@ -227,6 +227,15 @@ def run_observation(scn: dict, with_dask: bool, *, simulate: bool = True, forced
         return rec
     if keep_objects:
         rec["objects"] = (mode, det, pipe)
+    if warmup:
+        # history: the caller has already used these very objects for a plain exposure
+        from pyxel.exposure import Exposure
+
+        try:
+            pyxel.run_mode(mode=Exposure(readout=mode.readout), detector=det, pipeline=pipe, with_inherited_coords=True)
+        except Exception as exc:  # noqa: BLE001
+            rec["warmup_exc"] = exc
+        probes.HIST.clear()
     state_before = np.random.get_state()
     sc = scn.get("sched") or {}
     sim = None
